@@ -22,15 +22,19 @@ mod signature;
 mod sub_attributes;
 mod token_util;
 mod trait_codegen;
+#[cfg(entrait_verif)]
+pub mod verif;
 
 use input::Input;
 use opt::Opts;
 
+#[cfg(not(entrait_verif))]
 #[proc_macro_attribute]
 pub fn entrait(attr: TokenStream, input: TokenStream) -> TokenStream {
     invoke(attr, input, |_| {})
 }
 
+#[cfg(not(entrait_verif))]
 #[proc_macro_attribute]
 pub fn entrait_export(attr: TokenStream, input: TokenStream) -> TokenStream {
     invoke(attr, input, |opts| {
@@ -38,6 +42,7 @@ pub fn entrait_export(attr: TokenStream, input: TokenStream) -> TokenStream {
     })
 }
 
+#[cfg(not(entrait_verif))]
 #[proc_macro_attribute]
 pub fn entrait_unimock(attr: TokenStream, input: TokenStream) -> TokenStream {
     invoke(attr, input, |opts| {
@@ -45,6 +50,7 @@ pub fn entrait_unimock(attr: TokenStream, input: TokenStream) -> TokenStream {
     })
 }
 
+#[cfg(not(entrait_verif))]
 #[proc_macro_attribute]
 pub fn entrait_export_unimock(attr: TokenStream, input: TokenStream) -> TokenStream {
     invoke(attr, input, |opts| {
